@@ -39,6 +39,9 @@ var alphabet = []sym{
 	{"remove a.toml", fsnotify.Event{Name: dir + "a.toml", Op: fsnotify.Remove}, false},
 	{"rename a.toml", fsnotify.Event{Name: dir + "a.toml", Op: fsnotify.Rename}, false},
 	{"write a.toml.bak", fsnotify.Event{Name: dir + "a.toml.bak", Op: fsnotify.Write}, false},
+	// the kernel queue overflowed (a burst while the consumer was late): the library reports ErrEventOverflow on
+	// watcher.Errors with a BLOCKING send (inotify.go:250-256 of fsnotify v1.5.1) before it reads on
+	{"queue overflow", fsnotify.Event{Name: "overflow"}, false},
 }
 
 type cfg struct {
@@ -62,10 +65,20 @@ func scenario(c cfg) func() {
 			w = &fsnotify.Watcher{Events: make(chan fsnotify.Event), Errors: make(chan error), Done: make(chan struct{})}
 			vsched.Name(w.Events, "watcher.Events")
 			vsched.Name(w.Done, "watcher.done")
+			vsched.Name(w.Errors, "watcher.Errors")
 			// the library's reader goroutine ("kernel"): delivers the planned events, abandons delivery when closed,
 			// and closes Events when the watcher is closed
 			vsched.Go("fsnotify-reader", func() {
 				for _, i := range c.seq {
+					if alphabet[i].name == "queue overflow" {
+						e := vsched.CaseSend[error](w.Errors, fsnotify.ErrEventOverflow)
+						d := vsched.CaseRecv[struct{}](w.Done)
+						if vsched.Select(false, e, d) == 1 {
+							break
+						}
+						vsched.Observe("overflow-reported", i)
+						continue
+					}
 					vsched.Observe("offered", i) // recorded BEFORE the hand-off: a notification can only follow it
 					e := vsched.CaseSend[fsnotify.Event](w.Events, alphabet[i].ev)
 					d := vsched.CaseRecv[struct{}](w.Done)
@@ -74,8 +87,10 @@ func scenario(c cfg) func() {
 					}
 					vsched.Observe("delivered", i)
 				}
+				vsched.Observe("reader-idle", true) // every planned event has left the library
 				vsched.In[struct{}](w.Done).Recv()
 				vsched.CloseBidi(w.Events)
+				vsched.CloseBidi(w.Errors)
 			})
 			return w, nil
 		}
@@ -105,7 +120,7 @@ func scenario(c cfg) func() {
 		}
 		// after quiescence: shut down (if not yet) so that everything can end
 		vsched.Go("finisher", func() {
-			vsched.SleepL(0, "quiesce")
+			vsched.Quiesce()
 			vsched.Observe("quiescent", true)
 			vsched.Final()
 			cancel()
@@ -127,7 +142,7 @@ func check(c cfg) func(x *vsched.Execution) []vsched.Violation {
 			return []vsched.Violation{{"watcher-does-not-stop", strings.Join(w, " + "), "after shutdown these threads are blocked forever: " + strings.Join(x.Blocked, " | ")}}
 		}
 		relevantDelivered, notified, nDelivered, lastOfferAt := 0, 0, 0, -1
-		cancelled, closed := false, false
+		cancelled, closed, readerIdle := false, false, false
 		lastRelevantAt, lastNotifiedAt := -1, -1
 		for i, o := range x.Obs {
 			switch o.Kind {
@@ -157,9 +172,14 @@ func check(c cfg) func(x *vsched.Execution) []vsched.Violation {
 					}
 					return []vsched.Violation{{"spurious-notification", spuriousCause(x.Obs[:i]), fmt.Sprintf("notification #%d delivered although %s (events so far: %v)", notified, what, seen)}}
 				}
+			case "reader-idle":
+				readerIdle = true
 			case "cancel", "quiescent":
 				if o.Kind == "cancel" {
 					cancelled = true
+				}
+				if o.Kind == "quiescent" && !cancelled && !readerIdle {
+					return []vsched.Violation{{"watcher-stalls-the-library", "errors-not-consumed", "everything is quiescent, nothing was cancelled, and the fsnotify reader is still blocked handing over an event or error: later file modifications can never be noticed"}}
 				}
 			case "stream-closed":
 				closed = true
